@@ -98,7 +98,7 @@ Logged == \/ TCReq \/ TCHead \/ TInner \/ TSpawn \/ TCSend \/ TCClose \/ TCDrop 
 Inferred == \/ ServerBut
             \/ ~cmdok /\ SrvStart
             \/ SrvTimer
-            \/ ChildKilled
+            \/ ChildKilled /\ Ign(mode) /\ ~pendInt      \* (only a command that has taken the interrupt and ignores it lives that long)
             \/ cst = "gone" /\ ClientRecv
 TNext == TScript \/ ((Logged \/ (Inferred /\ UNCHANGED l)) /\ UNCHANGED hisv)
 TSpec == TInit /\ [][TNext]_tvars
